@@ -250,7 +250,9 @@ def ChordInv {K : Type} [Num K] (n : V3 K) (bias eps : K) (V0 : Array (V3 K)) (s
   (∀ i j, AEdge st.adj i j → ∃ t ∈ done, PlanePt n bias eps V0 t (st.verts.getD i V3.zero) ∧ PlanePt n bias eps V0 t (st.verts.getD j V3.zero)) ∧
   (∀ t ∈ done, ∀ k, k < 3 → CrossedEdge n bias eps V0 t k → ∃ i j, AEdge st.adj i j ∧
       st.verts.getD i V3.zero = xpt n bias V0 (t.get k) (t.get ((k + 1) % 3)) ∧
-      PlanePt n bias eps V0 t (st.verts.getD i V3.zero) ∧ PlanePt n bias eps V0 t (st.verts.getD j V3.zero))
+      PlanePt n bias eps V0 t (st.verts.getD i V3.zero) ∧ PlanePt n bias eps V0 t (st.verts.getD j V3.zero)) ∧
+  (∀ t ∈ done, ∀ k, k < 3 → InPlaneEdge n bias eps V0 t k → ∃ i j, AEdge st.adj i j ∧
+      st.verts.getD i V3.zero = V0.getD (t.get k) V3.zero ∧ st.verts.getD j V3.zero = V0.getD (t.get ((k + 1) % 3)) V3.zero)
 
 private theorem chord_step {K : Type} [Num K] (n : V3 K) (bias eps : K) (V0 : Array (V3 K)) (s s' : Section.State K) (t : Tri)
     (done : List Tri) (hI : SInv n bias eps V0 s) (hI' : SInv n bias eps V0 s') (hQ : ChordInv n bias eps V0 s done)
@@ -261,8 +263,8 @@ private theorem chord_step {K : Type} [Num K] (n : V3 K) (bias eps : K) (V0 : Ar
     have hi := aedge_lt _ i j h
     rw [hI.size] at hi
     exact ⟨kp i hi, kp j (hI.entries i j h)⟩
-  rcases alt with ⟨hadj, hnc⟩ | ⟨o1, o2, E, p1, p2, hx, _⟩
-  · constructor
+  rcases alt with ⟨hadj, hnc, hnp⟩ | ⟨o1, o2, E, p1, p2, hx, _, hPl⟩
+  · refine ⟨?_, ?_, ?_⟩
     · intro i j h
       rw [hadj] at h
       obtain ⟨t0, ht0, a, b⟩ := hQ.1 i j h
@@ -270,12 +272,19 @@ private theorem chord_step {K : Type} [Num K] (n : V3 K) (bias eps : K) (V0 : Ar
       exact ⟨t0, by simp [ht0], by rw [e1]; exact a, by rw [e2]; exact b⟩
     · intro t0 ht0 k hk hcr
       rcases List.mem_append.mp ht0 with h0 | h0
-      · obtain ⟨i, j, e, x, a, b⟩ := hQ.2 t0 h0 k hk hcr
+      · obtain ⟨i, j, e, x, a, b⟩ := hQ.2.1 t0 h0 k hk hcr
         obtain ⟨e1, e2⟩ := old i j e
         exact ⟨i, j, by rw [hadj]; exact e, by rw [e1]; exact x, by rw [e1]; exact a, by rw [e2]; exact b⟩
       · simp only [List.mem_singleton] at h0; subst h0
         exact absurd hcr (hnc k hk)
-  · constructor
+    · intro t0 ht0 k hk hp
+      rcases List.mem_append.mp ht0 with h0 | h0
+      · obtain ⟨i, j, e, a, b⟩ := hQ.2.2 t0 h0 k hk hp
+        obtain ⟨e1, e2⟩ := old i j e
+        exact ⟨i, j, by rw [hadj]; exact e, by rw [e1]; exact a, by rw [e2]; exact b⟩
+      · simp only [List.mem_singleton] at h0; subst h0
+        exact absurd hp (hnp k hk)
+  · refine ⟨?_, ?_, ?_⟩
     · intro i j h
       rcases (E i j).mp h with h | ⟨rfl, rfl⟩ | ⟨rfl, rfl⟩
       · obtain ⟨t0, ht0, a, b⟩ := hQ.1 i j h
@@ -285,13 +294,22 @@ private theorem chord_step {K : Type} [Num K] (n : V3 K) (bias eps : K) (V0 : Ar
       · exact ⟨t, by simp, p2, p1⟩
     · intro t0 ht0 k hk hcr
       rcases List.mem_append.mp ht0 with h0 | h0
-      · obtain ⟨i, j, e, x, a, b⟩ := hQ.2 t0 h0 k hk hcr
+      · obtain ⟨i, j, e, x, a, b⟩ := hQ.2.1 t0 h0 k hk hcr
         obtain ⟨e1, e2⟩ := old i j e
         exact ⟨i, j, (E i j).mpr (Or.inl e), by rw [e1]; exact x, by rw [e1]; exact a, by rw [e2]; exact b⟩
       · simp only [List.mem_singleton] at h0; subst h0
         rcases hx k hk hcr with h | h
         · exact ⟨o1, o2, (E _ _).mpr (Or.inr (Or.inl ⟨rfl, rfl⟩)), h, p1, p2⟩
         · exact ⟨o2, o1, (E _ _).mpr (Or.inr (Or.inr ⟨rfl, rfl⟩)), h, p2, p1⟩
+    · intro t0 ht0 k hk hp
+      rcases List.mem_append.mp ht0 with h0 | h0
+      · obtain ⟨i, j, e, a, b⟩ := hQ.2.2 t0 h0 k hk hp
+        obtain ⟨e1, e2⟩ := old i j e
+        exact ⟨i, j, (E i j).mpr (Or.inl e), by rw [e1]; exact a, by rw [e2]; exact b⟩
+      · simp only [List.mem_singleton] at h0; subst h0
+        rcases hPl k hk hp with ⟨a, b⟩ | ⟨a, b⟩
+        · exact ⟨o1, o2, (E _ _).mpr (Or.inr (Or.inl ⟨rfl, rfl⟩)), a, b⟩
+        · exact ⟨o2, o1, (E _ _).mpr (Or.inr (Or.inr ⟨rfl, rfl⟩)), b, a⟩
 
 /-- loop invariant of step 2 at the level of indices: a processed triangle with two different crossed edges has linked the polyline
 vertices stored for the keys of these two edges -/
@@ -311,7 +329,7 @@ private theorem key_step {K : Type} [Num K] (n : V3 K) (bias eps : K) (V0 : Arra
     · rw [hadj]; exact e
     · exact (E i j).mpr (Or.inl e)
   · simp only [List.mem_singleton] at h0; subst h0
-    rcases alt with ⟨_, hnc⟩ | ⟨o1, o2, E, _, _, _, hL⟩
+    rcases alt with ⟨_, hnc, _⟩ | ⟨o1, o2, E, _, _, _, hL, _⟩
     · exact absurd hc (hnc k hk)
     · rcases hL k k' hk hk' hne hc hc' with ⟨l1, l2⟩ | ⟨l1, l2⟩
       · exact ⟨o1, o2, l1, l2, (E _ _).mpr (Or.inr (Or.inl ⟨rfl, rfl⟩))⟩
@@ -341,7 +359,8 @@ returns `Intersect(polyline)` (vertices `vs`, segments `segs`), for every mesh w
 of the plane, or the exact crossing point of one of its edges whose end points are beyond `eps` on opposite sides) — the polyline lies
 on the mesh, segment by segment, not only vertex by vertex; (4) conversely, for every triangle and every edge of it that the plane
 crosses, the crossing point is an end point of a polyline segment lying in that triangle — no crossed triangle is skipped by the
-triangle loop and no segment is lost (or duplicated) by the orientation walk. -/
+triangle loop and no segment is lost (or duplicated) by the orientation walk; (5) every mesh edge lying in the plane (both end points
+within `eps`, the opposite vertex of the triangle not) is a polyline segment. -/
 theorem section_polyline_spec (verts : List (V3 K)) (tris : List Tri) (n : V3 K) (bias eps : K) (he : 0 ≤ eps)
     (vs : List (V3 K)) (segs : List (Nat × Nat))
     (h : letI := fieldNum K sq; Section.localSection verts tris n bias eps = some (.intersect vs segs)) :
@@ -352,14 +371,17 @@ theorem section_polyline_spec (verts : List (V3 K)) (tris : List Tri) (n : V3 K)
     (∀ t ∈ tris, ∀ k, k < 3 → CrossedEdge n bias eps verts.toArray t k → ∃ s ∈ segs,
         PlanePt n bias eps verts.toArray t (vs.getD s.1 V3.zero) ∧ PlanePt n bias eps verts.toArray t (vs.getD s.2 V3.zero) ∧
         (vs.getD s.1 V3.zero = xpt n bias verts.toArray (t.get k) (t.get ((k + 1) % 3)) ∨
-         vs.getD s.2 V3.zero = xpt n bias verts.toArray (t.get k) (t.get ((k + 1) % 3)))) := by
+         vs.getD s.2 V3.zero = xpt n bias verts.toArray (t.get k) (t.get ((k + 1) % 3)))) ∧
+    (∀ t ∈ tris, ∀ k, k < 3 → InPlaneEdge n bias eps verts.toArray t k → ∃ s ∈ segs,
+        (vs.getD s.1 V3.zero = verts.toArray.getD (t.get k) V3.zero ∧ vs.getD s.2 V3.zero = verts.toArray.getD (t.get ((k + 1) % 3)) V3.zero) ∨
+        (vs.getD s.2 V3.zero = verts.toArray.getD (t.get k) V3.zero ∧ vs.getD s.1 V3.zero = verts.toArray.getD (t.get ((k + 1) % 3)) V3.zero)) := by
   letI : Num K := fieldNum K sq
   simp only [Section.localSection] at h
   by_cases hv : validMesh verts.length tris = true
   · simp only [hv, Bool.not_true, Bool.false_eq_true, if_false] at h
     obtain ⟨st, e, hI, hQ⟩ := stepLoop_ok sq n bias eps he verts.toArray _ tris (colours_ok sq verts tris n bias eps hv)
       ⟨#[], [], [], #[]⟩ (ChordInv n bias eps verts.toArray) (sinv_init sq n bias eps _)
-      ⟨fun i j h => by simp [AEdge] at h, fun t ht => by simp at ht⟩
+      ⟨fun i j h => by simp [AEdge] at h, fun t ht => by simp at ht, fun t ht => by simp at ht⟩
       (fun s s' t done a b c d => chord_step n bias eps verts.toArray s s' t done a b c d)
     cases hm : meshVerdict verts n bias eps with
     | negative => rw [hm] at h; simp at h
@@ -370,7 +392,7 @@ theorem section_polyline_spec (verts : List (V3 K)) (tris : List Tri) (n : V3 K)
       obtain ⟨rfl, rfl⟩ := h
       obtain ⟨cov, nd, rng⟩ := orient_spec st.adj hI.sym
       have gd : ∀ i, st.verts.toList.getD i V3.zero = st.verts.getD i V3.zero := fun i => getD_toList _ _ _
-      refine ⟨?_, nd, ?_, ?_⟩
+      refine ⟨?_, nd, ?_, ?_, ?_⟩
       · intro s hs
         have := rng s hs
         rw [hI.size] at this
@@ -379,10 +401,15 @@ theorem section_polyline_spec (verts : List (V3 K)) (tris : List Tri) (n : V3 K)
         obtain ⟨t, ht, a, b⟩ := hQ.1 s.1 s.2 ((cov s.1 s.2).mpr (Or.inl hs))
         exact ⟨t, ht, by rw [gd]; exact a, by rw [gd]; exact b⟩
       · intro t ht k hk hcr
-        obtain ⟨i, j, e', x, a, b⟩ := hQ.2 t ht k hk hcr
+        obtain ⟨i, j, e', x, a, b⟩ := hQ.2.1 t ht k hk hcr
         rcases (cov i j).mp e' with hs | hs
         · exact ⟨(i, j), hs, by rw [gd]; exact a, by rw [gd]; exact b, Or.inl (by rw [gd]; exact x)⟩
         · exact ⟨(j, i), hs, by rw [gd]; exact b, by rw [gd]; exact a, Or.inr (by rw [gd]; exact x)⟩
+      · intro t ht k hk hp
+        obtain ⟨i, j, e', a, b⟩ := hQ.2.2 t ht k hk hp
+        rcases (cov i j).mp e' with hs | hs
+        · exact ⟨(i, j), hs, Or.inl ⟨by rw [gd]; exact a, by rw [gd]; exact b⟩⟩
+        · exact ⟨(j, i), hs, Or.inr ⟨by rw [gd]; exact a, by rw [gd]; exact b⟩⟩
   · simp [hv] at h
 
 /-- **C17 (plane section, no dead end at an edge shared by two triangles — closedness)**: let the mesh edge `e` be crossed by the
